@@ -4,7 +4,7 @@ import json
 from fractions import Fraction
 import numpy as np
 from harness import votelib as V
-from harness.common import pmap, lean_query, guard, fr, safe_judge
+from harness.common import pmap, lean_query, guard, fr, safe_judge, pmap_singles
 from harness.c01 import chunks
 
 LEVEL = "proof"
@@ -192,8 +192,8 @@ def run_items(R, items):
         if "results" in res:
             flat += res["results"]
         else:
-            singles = pmap("c06", "impl_batch", [{"items": [it]} for it in case["items"]], deadline=30.0)
-            flat += [s["results"][0] if "results" in s else {"hang": True} for s in singles]
+            singles = pmap_singles("c06", "impl_batch", [{"items": [it]} for it in case["items"]], deadline=30.0, R=R)
+            flat += [s["results"][0] if "results" in s else ({"skipped": True} if "skipped" in s else {"hang": True}) for s in singles]
     lines, idx = [], []
     for i, (it, r) in enumerate(zip(items, flat)):
         l = lean_line(it, r)
